@@ -109,7 +109,7 @@ theorem nib_some {t step iv : Int} (hs : 0 < step) (hi : 0 < iv) : ∃ e, nib t 
 
 /-- what one sub-request must satisfy relative to the loop's current `start` -/
 def SubOK (start stop step : Int) (q : Int × Int) : Prop :=
-  step ∣ (q.1 - start) ∧ start ≤ q.1 ∧ q.1 ≤ q.2 ∧ q.2 ≤ stop
+  step ∣ (q.1 - start) ∧ start ≤ q.1 ∧ q.1 ≤ q.2 ∧ q.2 ≤ stop ∧ (step ∣ (q.2 - q.1) ∨ q.2 = stop)
 
 theorem splitLoop_spec {stop step iv : Int} (hs : 0 < step) (hi : 0 < iv) :
     ∀ (fuel : Nat) (start : Int), stop - start ≤ fuel →
@@ -139,7 +139,7 @@ theorem splitLoop_spec {stop step iv : Int} (hs : 0 < step) (hi : 0 < iv) :
         · simp [hlt]
         · intro q hq
           simp at hq; subst hq
-          exact ⟨by simp, by simp, by simp; omega, by simp⟩
+          exact ⟨by simp, by simp, by simp; omega, by simp, Or.inr rfl⟩
       · have hnl : e + step < stop := by omega
         refine ⟨(start, e) :: l', ?_, ?_, ?_⟩
         · simp [splitLoop, hlt, he, hl', hend]
@@ -147,9 +147,9 @@ theorem splitLoop_spec {stop step iv : Int} (hs : 0 < step) (hi : 0 < iv) :
           exact (grid_split hs h1 (by omega) hdvd).symm
         · intro q hq
           rcases List.mem_cons.mp hq with rfl | hq
-          · exact ⟨by simp, by simp, h1, by simp; omega⟩
-          · obtain ⟨a1, a2, a3, a4⟩ := hq' q hq
-            refine ⟨?_, by omega, a3, a4⟩
+          · exact ⟨by simp, by simp, h1, by simp; omega, Or.inl hdvd⟩
+          · obtain ⟨a1, a2, a3, a4, a5⟩ := hq' q hq
+            refine ⟨?_, by omega, a3, a4, a5⟩
             have : q.1 - start = (q.1 - (e + step)) + ((e - start) + step) := by omega
             rw [this]
             exact Int.dvd_add a1 (Int.dvd_add hdvd (Int.dvd_refl _))
@@ -292,5 +292,29 @@ theorem grid_pairwise {start stop step : Int} (hs : 0 < step) : (grid start stop
     intro a b hab
     have : step * (a : Int) < step * (b : Int) := Int.mul_lt_mul_of_pos_left (by omega) hs
     omega
+
+end Thanos.Split
+
+namespace Thanos.Split
+
+/-- `splitQuery` (range case) with the per-sub-request facts the results cache needs: each
+    sub-request starts a whole number of steps after `start`, lies inside `[start, stop]`, is
+    non-empty, and ends a whole number of steps after its own start unless it ends at `stop` -/
+theorem split_spec (start stop step iv : Int) (hs : 0 < step) (hi : 0 < iv) :
+    ∃ l, split start stop step iv = .ok l ∧
+      l.flatMap (fun q => grid q.1 q.2 step) = grid start stop step ∧
+      ∀ q ∈ l, SubOK start stop step q := by
+  unfold split
+  by_cases heq : start = stop
+  · subst heq
+    refine ⟨[(start, start)], by simp, by simp, ?_⟩
+    intro q hq; simp at hq; subst hq
+    exact ⟨by simp, by simp, by simp, by simp, Or.inr rfl⟩
+  · obtain ⟨l, hl, hg, hq⟩ := splitLoop_spec (stop := stop) hs hi (stop - start).toNat start (by omega)
+    refine ⟨l, by simp [heq, hl], ?_, hq⟩
+    rw [hg]
+    by_cases hlt : start < stop
+    · simp [hlt]
+    · simp [hlt, grid_of_lt (show stop < start by omega)]
 
 end Thanos.Split
